@@ -65,8 +65,8 @@ def _expected(mode, entry, main, files):
             finally:
                 sys.stdout = saved
         except BaseException as e:   # noqa
-            rcls = type(e).__name__
-            tb = traceback.extract_tb(e.__traceback__)
+            rcls = sc.cls_name(e)
+            tb = traceback.extract_tb(sys.exc_info()[2])
             # "raised on a student line": the innermost frame belongs to the student's file
             line = tb[-1].lineno if tb and tb[-1].filename == 'answer.py' else None
         fname = 'answer.py'
@@ -117,9 +117,9 @@ def body(ctx):
         else:
             result = sc.perform(entry, main)
     except BaseException as e:   # noqa
-        tb = traceback.extract_tb(e.__traceback__)
+        tb = traceback.extract_tb(sys.exc_info()[2])
         inner = [f for f in tb if '/pedal/' in f.filename]
-        ctx.fail({'symptom': 'exception escaped into the grader', 'exception': type(e).__name__, 'mode': mode,
+        ctx.fail({'symptom': 'exception escaped into the grader', 'exception': sc.cls_name(e), 'mode': mode,
                   'entry': 'import' if entry == 'import' else 'direct', 'threaded': threaded},
                  case=case, message=str(e)[:200],
                  at='%s:%s' % (inner[-1].filename.split('/pedal/')[-1], inner[-1].lineno) if inner else None)
@@ -142,7 +142,7 @@ def body(ctx):
         ctx.fail({'symptom': 'a failed call returned something other than the failure', 'mode': mode, 'entry': entry},
                  case=case, returned=repr(result)[:80])
     raw = unwrap_value(exc) if hasattr(exc, '_actual_value') or type(exc).__name__ == 'SandboxResult' else exc
-    got_cls = type(raw).__name__
+    got_cls = sc.cls_name(raw)
     if len(new) != 1:
         ctx.fail({'symptom': 'not exactly one runtime feedback', 'count': len(new), 'mode': mode, 'threaded': threaded},
                  case=case, labels=[f.label for f in new])
@@ -260,7 +260,7 @@ def body_own_report(ctx):
         else:
             sc.sb_cmds.evaluate('target()', report=mine)
     except BaseException as e:   # noqa
-        ctx.fail({'symptom': 'exception escaped into the grader', 'exception': type(e).__name__, 'mode': mode,
+        ctx.fail({'symptom': 'exception escaped into the grader', 'exception': sc.cls_name(e), 'mode': mode,
                   'entry': 'own report', 'threaded': threaded}, case=case, message=str(e)[:200])
         snap.force()
         return
@@ -326,7 +326,7 @@ def body_sections(ctx):
         later = [f for f in sc.MAIN_REPORT.feedback[n1:] if f.category == 'runtime']
         later_exc = sc.sb_cmds.get_exception()
     except BaseException as e:   # noqa
-        ctx.fail({'symptom': 'exception escaped into the grader', 'exception': type(e).__name__, 'mode': mode,
+        ctx.fail({'symptom': 'exception escaped into the grader', 'exception': sc.cls_name(e), 'mode': mode,
                   'entry': 'section', 'threaded': threaded}, case=case, message=str(e)[:200])
         snap.force()
         return
